@@ -101,8 +101,8 @@ template <class X> void beyond_int_max(Ctx& c) {
     int need = -5; int rc; { LibScope ls; rc = X::ToStringCharsRequired(&u, &need); } c.evaluations++; c.count("text_beyond_int_max_measured");
     Str what = fmt("hand-filled relative path of 129 segments, text length %lld (INT_MAX + %lld): rc=%d charsRequired=%d", want, want - (long long)INT_MAX, rc, need);
     if (rc != URI_SUCCESS) { c.count("text_beyond_int_max_refused"); return; }
-    if (need == (int)(unsigned)(unsigned long long)want) c.violation("C05", fmt("tostring/%s/text-longer-than-INT_MAX-measured-as-a-wrapped-figure", X::tag()), what);
-    else c.violation("C05", fmt("tostring/%s/text-longer-than-INT_MAX-measured-otherwise", X::tag()), what);
+    // success with any figure is the finding: no int equals the length (the sum is signed overflow, so the exact figure is the compiler's)
+    c.violation("C05", fmt("tostring/%s/text-longer-than-INT_MAX-measured-as-a-wrapped-figure", X::tag()), what);
 }
 
 template <class X> void run(Ctx& c, uint64_t idx) {
